@@ -607,8 +607,10 @@ func c12Eval(f []string) (string, []string) {
 	tags := []string{sp[0], "path=" + f[1]}
 	if f[0] == "" {
 		tags = append(tags, "trivial-empty-stack")
-	} else {
+	} else if c12Legacy(f[0]) {
 		tags = append(tags, fmt.Sprintf("wrappers=%d", strings.Count(f[0], ",")+1))
+	} else {
+		tags = append(tags, c12SpellTags(f[0])...)
 	}
 	if strings.Contains(out, "g:") {
 		tags = append(tags, "gzip-coded")
@@ -976,7 +978,11 @@ func c12LiveEval(f []string) (string, []string) {
 	tr2 := &http.Transport{DisableCompression: true}
 	f2 := follow(tr2)
 	tr2.CloseIdleConnections()
-	return out + " " + f1 + " " + f2, []string{sp[0], "live"}
+	tags := []string{sp[0], "live"}
+	if !c12Legacy(f[0]) {
+		tags = append(tags, c12SpellTags(f[0])...)
+	}
+	return out + " " + f1 + " " + f2, tags
 }
 
 func c12LiveGen(g *hx.Gen) {
